@@ -14,63 +14,58 @@ VARIABLES steps, len, hist
 mcvars == <<st, last, steps, len, hist>>
 
 Rect(r1, c1, r2, c2) == [r1 |-> r1, c1 |-> c1, r2 |-> r2, c2 |-> c2]
-SRange(k, r1, c1, r2, c2) == [k |-> k, r1 |-> r1, c1 |-> c1, r2 |-> r2, c2 |-> c2]
 
 (* initial sheets, built through the operations themselves *)
 Rich ==
   LET a == PostSetCell(EmptyStore, 1, 1, "a", "")
       b == PostSetStyle(a, 2, 2, "F")
       c == PostGetCellMut(b, 3, 2)
-      d == PostSetStyleByRange(c, SRange("rows", 3, 0, 3, 0), "N")
-      e == PostSetStyleByRange(d, SRange("cols", 0, 1, 0, 1), "F")
+      d == WithRowStyle(c, 3, "N")
+      e == WithColStyle(d, 1, "F")
   IN  PostSetCell(e, 2, 3, "b", "N")
-Sparse == PostSetCell(PostGetCellMut(PostSetStyleByRange(EmptyStore, SRange("rows", 2, 0, 2, 0), "F"), 2, 1), 3, 3, "z", "")
+Sparse == PostSetCell(PostGetCellMut(WithRowStyle(EmptyStore, 2, "F"), 2, 1), 3, 3, "z", "")
 
 Pick(S) == IF Wide THEN {RandomElement(S)} ELSE S
+W == 1..Win
+RowsHere == IF Wide THEN 1..(MaxRow - 4) ELSE W      \* (Wide: room is left for inserts)
+ColsHere == IF Wide THEN 1..(MaxCol - 2) ELSE W
 
-RandomStore ==
-  LET keys == RandomSubset(RandomElement(0..10), (1..MaxRow) \X (1..MaxCol))
+(* (a definition without parameters would be evaluated once and cached: the parameter forces one draw per use) *)
+RandomStore(i) ==
+  LET keys == RandomSubset(RandomElement(0..10) + 0 * i, RowsHere \X ColsHere)
       f1 == FoldSet(LAMBDA k, a : IF RandomElement(1..4) = 1 THEN PostGetCellMut(a, k[1], k[2])
                                   ELSE PostSetCell(a, k[1], k[2], "i" \o ToString(k[1]) \o "_" \o ToString(k[2]),
                                                    RandomElement({"", "", "N", "F"})),
                     EmptyStore, keys)
-      f2 == FoldSet(LAMBDA r, a : PostSetStyleByRange(a, SRange("rows", r, 0, r, 0), RandomElement({"", "N", "F"})),
-                    f1, RandomSubset(RandomElement(0..2), 1..MaxRow))
-  IN  FoldSet(LAMBDA c, a : PostSetStyleByRange(a, SRange("cols", 0, c, 0, c), RandomElement({"N", "F"})),
-              f2, RandomSubset(RandomElement(0..2), 1..MaxCol))
+      f2 == FoldSet(LAMBDA r, a : WithRowStyle(a, r, RandomElement({"", "N", "F"})),
+                    f1, RandomSubset(RandomElement(0..2), RowsHere))
+  IN  FoldSet(LAMBDA c, a : WithColStyle(a, c, RandomElement({"N", "F"})),
+              f2, RandomSubset(RandomElement(0..2), ColsHere))
 
 InitRec(s) == [a |-> "Init", cells |-> Abs(s),
                rows |-> {[r |-> k, s |-> s.rows[k].s] : k \in DOMAIN s.rows},
                cols |-> {[c |-> k, s |-> s.cols[k]] : k \in DOMAIN s.cols}]
 
 MCInit ==
-  /\ st \in (IF Wide THEN {RandomStore} ELSE {EmptyStore, Rich, Sparse})
+  /\ st \in (IF Wide THEN {RandomStore(i) : i \in 1..40} ELSE {EmptyStore, Rich, Sparse})
   /\ last = [op |-> "init"]
   /\ steps = 0
-  /\ len \in (IF Wide THEN {RandomElement(1..Depth)} ELSE {Depth})
+  /\ len \in (IF Wide THEN 1..Depth ELSE {Depth})
   /\ hist = <<InitRec(st)>>
 
 Lean == Pools = "lean"
-W == 1..Win
-Ns == IF Wide THEN {1, 2, 3} ELSE {1, 2}
+Ns == IF Wide THEN {1, 2, 3} ELSE IF Lean THEN {1} ELSE {1, 2}
 Styles == {"", "N", "F"}
 RectPool == IF Lean THEN {Rect(1, 1, 2, 2), Rect(2, 2, 3, 2)} ELSE {Rect(1, 1, 2, 2), Rect(2, 2, 3, 2), Rect(1, 2, 3, 3)}
 Offsets  == IF Lean THEN {<<0, 1>>, <<1, 0>>, <<-1, 0>>} ELSE {<<0, 1>>, <<1, 0>>, <<-1, 0>>, <<1, 1>>, <<0, -1>>}
-StyleRangePool == {SRange("rect", 1, 1, 2, 2), SRange("rect", 2, 2, 3, 3), SRange("rows", 2, 0, 3, 0), SRange("cols", 0, 1, 0, 2)}
+StyleRangePool == {Rect(1, 1, 2, 2), Rect(2, 2, 3, 3), Rect(3, 1, 3, 3)}
 SpanPool == IF Lean THEN {<<FALSE, 1, FALSE, 1>>} ELSE {<<FALSE, 1, FALSE, 1>>, <<TRUE, 2, TRUE, 3>>}
 
-AllRects == {Rect(r1, c1, r1 + h, c1 + w) : r1 \in 1..(MaxRow - 2), c1 \in 1..(MaxCol - 2), h \in {0, 1, 2}, w \in {0, 1, 2}}
+AllRects == {Rect(r1, c1, r1 + h, c1 + w) : r1 \in 1..(MaxRow - 6), c1 \in 1..(MaxCol - 4), h \in {0, 1, 2}, w \in {0, 1, 2}}
 AllOffsets == {<<dr, dc>> : dr \in -3..3, dc \in -2..2} \ {<<0, 0>>}
-WideStyleRange ==
-  LET g == RandomElement(AllRects)
-      k == RandomElement({"rect", "rect", "rows", "cols"})
-  IN  IF k = "rect" THEN SRange("rect", g.r1, g.c1, g.r2, g.c2)
-      ELSE IF k = "rows" THEN SRange("rows", g.r1, 0, g.r2, 0) ELSE SRange("cols", 0, g.c1, 0, g.c2)
 WideSpan(n) == <<RandomElement({TRUE, FALSE}), RandomElement(1..n), RandomElement({TRUE, FALSE}), RandomElement(1..n)>>
 
 Log(rec) == hist' = Append(hist, rec) /\ steps' = steps + 1 /\ len' = len
-RowsHere == IF Wide THEN 1..MaxRow ELSE W
-ColsHere == IF Wide THEN 1..MaxCol ELSE W
 NewValue == IF Wide THEN "v" \o ToString(steps + 1) ELSE "x"
 
 G == steps < len
@@ -82,19 +77,19 @@ DoRemoveCell == G /\ \/ \E r \in Pick(RowsHere), c \in Pick(ColsHere) :
                           RemoveCell(r, c) /\ Log([a |-> "RemoveCell", r |-> r, c |-> c])
                      \/ \E k \in (IF Wide /\ Existing(st) # {} THEN Pick(Existing(st)) ELSE {}) :
                           RemoveCell(k[1], k[2]) /\ Log([a |-> "RemoveCell", r |-> k[1], c |-> k[2]])
-DoSetStyle == G /\ \E r \in Pick(RowsHere), c \in Pick(ColsHere), s \in Pick(IF Wide THEN Styles ELSE {"", "F"}) :
+DoSetStyle == G /\ \E r \in Pick(RowsHere), c \in Pick(ColsHere), s \in Pick(IF Wide THEN Styles ELSE IF Lean THEN {"F"} ELSE {"", "F"}) :
                   SetStyle(r, c, s) /\ Log([a |-> "SetStyle", r |-> r, c |-> c, s |-> s])
-DoSetStyleByRange == G /\ \E g \in (IF Wide THEN {WideStyleRange} ELSE StyleRangePool), s \in Pick(IF Wide THEN Styles ELSE {"F"}) :
+DoSetStyleByRange == G /\ \E g \in (IF Wide THEN Pick(AllRects) ELSE StyleRangePool), s \in Pick(IF Wide THEN Styles ELSE {"F"}) :
                   SetStyleByRange(g, s) /\ Log([a |-> "SetStyleByRange", g |-> g, s |-> s])
 DoInsert == G /\ \E ax \in Pick({"row", "col"}), n \in Pick(Ns) : \E p \in Pick(IF Wide THEN 1..Lines(ax) ELSE W) :
                   InsertLines(ax, p, n) /\ Log([a |-> "Insert", ax |-> ax, p |-> p, n |-> n])
-DoRemove == G /\ \E ax \in Pick({"row", "col"}), n \in Pick(Ns) : \E p \in Pick(IF Wide THEN 1..Lines(ax) ELSE W) :
+DoRemove == G /\ (Wide => RandomElement(1..2) = 1) /\ \E ax \in Pick({"row", "col"}), n \in Pick(Ns) : \E p \in Pick(IF Wide THEN 1..Lines(ax) ELSE W) :
                   RemoveLines(ax, p, n) /\ Log([a |-> "Remove", ax |-> ax, p |-> p, n |-> n])
 DoMove == G /\ \E g \in (IF Wide THEN Pick(AllRects) ELSE RectPool), o \in (IF Wide THEN Pick(AllOffsets) ELSE Offsets) :
                   MoveRange(g, o[1], o[2]) /\ Log([a |-> "Move", g |-> g, dr |-> o[1], dc |-> o[2]])
 DoCopy == G /\ \E g \in (IF Wide THEN Pick(AllRects) ELSE RectPool), o \in (IF Wide THEN Pick(AllOffsets) ELSE Offsets) :
                   CopyRange(g, o[1], o[2]) /\ Log([a |-> "Copy", g |-> g, dr |-> o[1], dc |-> o[2]])
-DoCleanup == G /\ Cleanup /\ Log([a |-> "Cleanup"])
+DoCleanup == G /\ (Wide => RandomElement(1..4) = 1) /\ Cleanup /\ Log([a |-> "Cleanup"])
 DoCopyRowStyling == G /\ \E src \in Pick(RowsHere), dst \in Pick(RowsHere), sp \in (IF Wide THEN {WideSpan(MaxCol)} ELSE SpanPool) :
           /\ CopyRowStyling(src, dst, sp[1], sp[2], sp[3], sp[4])
           /\ Log([a |-> "CopyRowStyling", src |-> src, dst |-> dst, hs |-> sp[1], c1 |-> sp[2], he |-> sp[3], c2 |-> sp[4]])
